@@ -44,6 +44,12 @@ def cases(seed, tier, shard, nshards):
             case = MC.random_cut_case(rng, rng.choice([8, 12]), allow_lower5=True, mode='het5_lower_kept')
             if case is not None and 'lower_case_kekule_ring' not in case['features']:
                 case = None
+        elif rng.random() < 0.05:
+            # pyridone / quinone / tropone / uracil: lower-case rings with an exocyclic C=O, cut at that double bond or at
+            # the substituents
+            case = MC.random_cut_case(rng, 12, mode='lower_exo')
+            if case is not None:
+                case['features'] = sorted(set(case['features']) | {'lower_case_ring_with_exocyclic_double_bond'})
         else:
             case = MC.random_cut_case(rng, rng.choice(cfg['max_heavy']), implicit_biaryl=0.5)
         if case is not None:
@@ -54,6 +60,11 @@ def run(case):
     viol = []
     truth = MC.truth_from_json(case['truth'])
     res_single = MC.resolve_single(case['single'])
+    if res_single['error'] and 'lower_case_ring_with_exocyclic_double_bond' in case['features'] and MC.EXPECTED_REJECTION in res_single['error']:
+        # the library turns some of these lower-case spellings down with its documented 'write the Kekule form' message
+        # (N-substituted pyridones and uracils, for instance): outside the premise, counted
+        return {'violations': [], 'rejected': {'lower_case_spelling_turned_down_for_the_uncut_molecule': 1}, 'nontrivial': False,
+                'cls': ('rejected_lower_exo',), 'sample': case['single']}
     if res_single['error']:
         viol.append(V('c01.single_exception', f"uncut molecule {case['single']!r} raised {res_single['error']}"))
     elif res_single['problems'] or not M.same_molecule(res_single['heavy'], truth):
